@@ -205,11 +205,23 @@ def run_model(module, constants, invariants=(), shards=1, tag=None, workers=None
 
 
 def sany_all():
-    """Parse every module of the specification (setup / self-test)."""
+    """Parse every module of the specification (setup / self-test).  Tables.tla extends TablesData, which is
+    generated from the shipped .npz files at check time: generate it into the scratch directory first."""
     bad = []
+    lib = scratch()
+    try:
+        import dtcwt
+        from . import tables
+        from .common import REPO
+        names = ["antonini", "legall", "near_sym_a", "near_sym_b", "near_sym_b_bp", "qshift_06", "qshift_32", "qshift_a",
+                 "qshift_b", "qshift_b_bp", "qshift_c", "qshift_d"]
+        tables.write_tablesdata(lib, os.path.join(REPO, "pytorch_wavelets", "dtcwt", "data"),
+                                os.path.join(os.path.dirname(dtcwt.__file__), "data"), names)
+    except Exception as e:   # noqa
+        bad.append(("TablesData generation", repr(e)))
     for fn in sorted(os.listdir(SPEC)):
         if fn.endswith(".tla"):
-            p = subprocess.run(["java", "-cp", JAR + ":" + DEPS, "tla2sany.SANY", fn], cwd=SPEC,
+            p = subprocess.run(["java", "-DTLA-Library=" + lib, "-cp", JAR + ":" + DEPS, "tla2sany.SANY", fn], cwd=SPEC,
                                stdout=subprocess.PIPE, stderr=subprocess.STDOUT, text=True)
             if "*** Errors" in p.stdout or "Fatal" in p.stdout or "Abort" in p.stdout:
                 bad.append((fn, p.stdout[-500:]))
